@@ -292,10 +292,12 @@ func main() {
 		})
 	})
 	registerPaths(r)
+	r.Register("sites", func(a []string) string { return strings.Join(censusSites(r), ",") })
 	if r.Replayed() {
 		return
 	}
 
+	census(r)
 	// corpus first: witnesses of the recorded findings and of past disagreements (one case line per line)
 	if dir := os.Getenv("VERIF_CORPUS"); dir != "" {
 		files, _ := filepath.Glob(filepath.Join(dir, "*.txt"))
